@@ -13,7 +13,7 @@ COQ_CMP = {"<": "Clt", "<=": "Cle", "=": "Ceq", "!=": "Cne", ">=": "Cge", ">": "
 NAME_POOL = ["A", "B", "AB", "BA", "A1", "A10", "A11", "Cx", "ALPHA", "BETA", "Q_r", "W", "WW", "Z9", "D", "DD",
              "G2", "G21", "H", "K_", "M", "MM", "P0", "P01", "R", "S_1", "T", "U", "UU", "Y"]
 BASES = ["y", "p", "xx", "z_"]
-LOCAL_NAMES = ["ca", "cb", "kq", "w_", "gam"]
+LOCAL_NAMES = ["ca", "cb", "kq", "w_", "gam", "pi", "tau"]   # pi, tau: names the compiled code also imports from math / numpy (the user's value must win)
 
 
 # ------------------------------------------------------------------ printing as mystic text
